@@ -18,14 +18,51 @@ pub struct V;
 
 fn writer_config(cfg: &ArcCfg) -> Result<ArchiveWriterConfig, String> {
     let mut c = ArchiveWriterConfig::new();
-    c.set_layers(Layers::from_bits_truncate(cfg.layers));
+    let want = Layers::from_bits_truncate(cfg.layers);
+    let pubs: Vec<PublicKey> = if cfg.enc() { (0..cfg.recipients).map(|i| PublicKey::from(&StaticSecret::from(key_bytes(cfg.key_seed, i)))).collect() } else { Vec::new() };
+    let route = crate::seams::cfg_route();
+    if route == 4 && cfg.enc() {
+        // keys before layers
+        c.add_public_keys(&pubs);
+    }
+    match route {
+        1 => {
+            // layers enabled one by one
+            if cfg.comp() {
+                c.enable_layer(Layers::COMPRESS);
+            }
+            if cfg.enc() {
+                c.enable_layer(Layers::ENCRYPT);
+            }
+        }
+        2 => {
+            // each wanted layer disabled and enabled again
+            c.set_layers(want);
+            c.disable_layer(Layers::ENCRYPT);
+            c.disable_layer(Layers::COMPRESS);
+            c.enable_layer(want);
+        }
+        3 => {
+            // everything on, everything off, then the wanted set
+            c.set_layers(Layers::DEFAULT);
+            c.disable_layer(Layers::DEFAULT);
+            c.set_layers(want);
+        }
+        _ => {
+            c.set_layers(want);
+        }
+    }
     if cfg.comp() {
         c.with_compression_level(cfg.level).map_err(|e| format!("{e:?}"))?;
     }
-    if cfg.enc() {
-        let pubs: Vec<PublicKey> =
-            (0..cfg.recipients).map(|i| PublicKey::from(&StaticSecret::from(key_bytes(cfg.key_seed, i)))).collect();
-        c.add_public_keys(&pubs);
+    if cfg.enc() && route != 4 {
+        if route == 1 && pubs.len() >= 2 {
+            // keys in two calls
+            c.add_public_keys(&pubs[..1]);
+            c.add_public_keys(&pubs[1..]);
+        } else {
+            c.add_public_keys(&pubs);
+        }
     }
     Ok(c)
 }
